@@ -40,6 +40,9 @@ EXTRA_STATIC = [
     # an element designator after a string that initialised the whole array (first, last, beyond the literal)
     "struct { char s[4]; int y; } es96 = { .s = \"abc\", .s[3] = 'x', .y = 2 };", "struct { char s[4]; int y; } es97 = { .s = \"abc\", .s[0] = 'x', .y = 2 };", "struct { char s[8]; } es98 = { .s = \"ab\", .s[7] = 1, .s[1] = 'z' };",
     'struct { unsigned short w[3]; char c; } es99 = { .w = u"ab", .w[2] = 7, .c = 1 };', 'char es100[2][4] = { [1] = "abc", [1][3] = 1, [0][3] = 2, [0] = "x" };',
+    # objects first declared while their type was incomplete: contents, size and alignment are those of the completed type
+    'extern struct ES104 es104; struct ES104 { long a; char b; }; struct ES104 es104 = { 1, 2 };', 'extern union ES105 es105; union ES105 { double d; char c; }; union ES105 es105 = { 1.5 };',
+    'extern struct ES106 es106; struct ES106 { _Alignas(32) short h; char c; }; struct ES106 es106 = { 1, 2 };',
     'struct { unsigned w[10]; int k; } es101 = { .w = U"xyz", .w[8] = 5, .k = 1 };', 'struct { unsigned short h[9]; } es102 = { .h = u"ab", .h[7] = 9, .h[3] = 1 };', "struct { char c[12]; } es103 = { .c = \"hi\", .c[11] = 'z' };",
     # designators that pass through anonymous members, followed by positional initialisers
     'struct { int a; struct { int b, c; }; int d; int e; } es81 = { .b = 1, 2, 3 };', 'struct { int a; struct { int b, c; }; int d; int e; } es82 = { 5, .c = 1, 3 };',
@@ -90,6 +93,8 @@ def _static(args):
         for i, t in enumerate(EXTRA_STATIC):
             names = re.findall(r'\b(es\d+)\b(?=[\[\]\w\s()*]*=)', t)
             decls.append(dataref.Decl('x%d' % i, t, sorted(set(names)), ref=t.replace('static ', 'static __attribute__((used)) ')))
+            for nm in sorted(set(names)):
+                decls.append(dataref.Decl('al_x%d_%s' % (i, nm), '', [], ref='const unsigned long al_%s = __alignof__(%s);' % (nm, nm)))
     else:
         prefix, rprefix, decls = static_unit(rng, 8)
     sub = os.path.join(wd, 'u%d-%s' % (idx, target))
@@ -106,9 +111,10 @@ def _static(args):
     # a declaration and its alignment probe live and die together
     dead = set(rrej)
     for d in decls:
-        if d.id.startswith('al_') and (d.id in dead or d.id[3:] in dead):
+        owner = d.id[3:] if not re.match(r'al_x\d+_', d.id) else d.id[3:].split('_', 1)[0]
+        if d.id.startswith('al_') and (d.id in dead or owner in dead):
             dead.add(d.id)
-            dead.add(d.id[3:])
+            dead.add(owner)
     res['skips']['ref-reject'] = len([d for d in dead if not d.startswith('al_')])
     live = [d for d in decls if d.id not in dead and d.text]
     m, crej, crash, live2 = dataref.cproc_images(exe, target, prefix, live, sub, 'c')
